@@ -232,6 +232,7 @@ impl SourceView {
         self.get_line(line).and_then(|line| {
             let mut off = 0;
             let mut idx = 0;
+            let end = (col as usize).saturating_add(span as usize);
             let mut char_iter = line.chars().peekable();
 
             while let Some(&c) = char_iter.peek() {
@@ -245,14 +246,14 @@ impl SourceView {
 
             let mut off_end = off;
             for c in char_iter {
-                if idx >= (col + span) as usize {
+                if idx >= end {
                     break;
                 }
                 off_end += c.len_utf8();
                 idx += c.len_utf16();
             }
 
-            if idx < ((col + span) as usize) {
+            if idx < end {
                 None
             } else {
                 line.get(off..off_end)
